@@ -7,7 +7,7 @@ import random
 from harness.drivers import engine as en
 from harness.programs.compile import cfg_for_tla
 
-DEV = {"match_done_waiters": True, "wait_index_one_based": True, "no_handlers_unvalidated": True}
+DEV = {"match_done_waiters": False, "wait_index_one_based": True, "no_handlers_unvalidated": False}
 
 EMPTY_STEP = {"queue": [], "ip": [], "coll": {}, "waiters": []}
 
